@@ -211,6 +211,9 @@ func c04(tier string) []*explore.Scenario {
 	})
 	for _, kind := range []string{"Unary", "Bidi", "SStream", "CStream"} {
 		out = append(out, c04EndToEnd(kind, false), c04EndToEnd(kind, true))
+		if kind != "Unary" {
+			out = append(out, c04ResetAfterReturn(kind, true, 1), c04ResetAfterReturn(kind, false, 1))
+		}
 		out = append(out, withConfig([]string{"via-rewriting-proxy", "demux+chain", "services+interceptors"}, c04EndToEnd(kind, false))...)
 	}
 	for _, way := range []string{"first-message", "sendheader", "with-trailer", "concurrent-sendheader"} {
@@ -515,6 +518,50 @@ func c04HeaderRace(way string, bound int) *explore.Scenario {
 			}
 			if msg := wantOf(trl).check(r.CTrailer, nil); msg != "" {
 				vsched.Fail(fam+"|response-trailer", "Trailer(): %s", msg)
+			}
+		},
+	}
+}
+
+// c04ResetAfterReturn: the handler of a stream has returned (its trailer is on its way) and the
+// caller - who never read anything - then gives up: its reset reaches a server that no longer
+// knows the stream. The request metadata was delivered to exactly one handler invocation;
+// no second invocation (with no metadata at all) appears for the same call.
+func c04ResetAfterReturn(kind string, herr bool, bound int) *explore.Scenario {
+	fam := "C04/end-to-end"
+	return &explore.Scenario{
+		Name: fmt.Sprintf("C04/reset-after-handler-returned/%s/herr=%v", kind, herr), Family: fam, Prop: "C04", Bound: bound,
+		Run: func() {
+			w := env.NewWorld()
+			d := env.NewDirect(w, env.DirectOpts{Pipe: env.PipeOpts{Cap: 64, Serialize: true}})
+			vsched.Settle()
+			vsched.Explore(true)
+			r := w.Rec("s", kind)
+			var ret error
+			if herr {
+				ret = status.Error(codes.Aborted, "gave up")
+			}
+			w.Handlers["s"] = env.HSendThenReturn(1, ret)
+			md := metadata.MD{"x-key": {"v1", "v2"}, "x-bin": {string([]byte{0, 0xff, 1})}}
+			ctx, cancel := context.WithCancel(metadata.NewOutgoingContext(context.Background(), md))
+			defer cancel()
+			vsched.GoNamed("caller", func() { w.Open(d.CC, ctx, r) })
+			vsched.Quiesce() // the handler has run and returned; the caller has read nothing
+			cancel()
+			vsched.Quiesce()
+			vsched.Obs("%s herr=%v: handler runs=%d stray=%v", kind, herr, r.HStarts, w.Stray)
+			if r.HStarts != 1 {
+				vsched.Fail(fam+"|request-metadata", "one %s call (cancelled after its handler had returned): the handler that was given its metadata ran %d times", kind, r.HStarts)
+			}
+			if len(w.Stray) > 0 {
+				vsched.Fail(fam+"|request-metadata", "one %s call (cancelled after its handler had returned): a further handler invocation ran for it without the call's metadata: %v", kind, w.Stray)
+			}
+			if r.HStarts >= 1 {
+				for k, v := range md {
+					if got := r.HMD.Get(k); fmt.Sprint(got) != fmt.Sprint(v) {
+						vsched.Fail(fam+"|request-metadata", "key %s: handler saw %q, caller sent %q", k, got, v)
+					}
+				}
 			}
 		},
 	}
